@@ -50,7 +50,9 @@ def check_run(ctx, name, m, t, no_prss, seed, lines, exps, metas):
         frames[(a, b)] = dict(fr)
     for p in range(m):
         for ci, sp in enumerate(mon.splits[p]):
-            what = f'{sp["origin"]} dealing #{ci} by party {p} in {name}'
+            if sp.get('monitor_error'):
+                return f'np_random_split dealing #{ci} by party {p} in {name} could not be observed: {sp["monitor_error"]}'
+            what = f'{sp["origin"]} {"array " if sp.get("np") else ""}dealing #{ci} by party {p} in {name}'
             ctx.count('origin:' + sp['origin'])
             if sp['t'] != t or sp['m'] != m:
                 return f'{what}: random_split called with t={sp["t"]}, m={sp["m"]} but threshold is {t}, parties {m}'
@@ -66,7 +68,9 @@ def check_run(ctx, name, m, t, no_prss, seed, lines, exps, metas):
                     ok, secret = sharemon.consistent(col, t, mod)
                     if not ok or secret != sp['secrets'][h] % mod:
                         return f'{what}: dealt column {h} is not a degree-<= {t} sharing of the dealt value'
-                    lead = draws[h * t][2]      # c[0] is the coefficient of X^t
+                    # coefficient of X^t: random_split draws c[0..t-1] per secret with c[0] leading; np_random_split draws a
+                    # (t, n) matrix row by row, row j holding the coefficients of X^(j+1)
+                    lead = draws[(t - 1) * sp['n'] + h][2] if sp.get('np') else draws[h * t][2]
                     low_ok = sharemon.consistent(col, t - 1, mod)[0]
                     if low_ok != (lead == 0):
                         return f'{what}: column {h} has degree < t although the leading coefficient {lead} is non-zero'
@@ -110,7 +114,7 @@ def run(ctx):
     rng = ctx.rng
     ctx._max_lines = ctx.scale(4000, 40000)
     lines, exps, metas = [], [], []
-    names = ['arith', 'fxp', 'mixed_await', 'fld_conv', 'seclist_random', 'bits_sort', 'output_subset']
+    names = ['arith', 'fxp', 'mixed_await', 'fld_conv', 'seclist_random', 'bits_sort', 'output_subset', 'np']
     for (m, t, no_prss) in CFGS + ([(7, 3, False), (7, 2, True), (6, 2, False)] if ctx.thorough else []):
         for name in names:
             for _ in range(ctx.scale(1, 6)):
@@ -131,8 +135,6 @@ def search(ctx):
     for k in range(ctx.scale(200, 2000)):
         m, t, no_prss = rng.choice(CFGS)
         name = names[k % len(names)]
-        if name == 'np':
-            continue
         seed = rng.randrange(10**9)
         msg = check_run(ctx, name, m, t, no_prss, seed, [], [], [])
         if msg:
